@@ -204,6 +204,13 @@ def h_session(ctx, n=3, kind='T1', side='long', exch='futures', cancel=True):
         ctx.constrain(And(c1 > sl + 0.5, c1 < tp - 0.5) if long else And(c1 < sl - 0.5, c1 > tp + 0.5))
         T = S.make_template(side=side, entry=None, stop=sl, take=tp, qty=1.0, on_open_exits=True, name='T7', reenter=True,
                             exit_qty_from_position=(exch == 'spot'))
+    elif kind == 'T3h':
+        # multi-row take-profit with UNEQUAL quantities declared in a hook (on_open_position), prices in any order
+        sl = ctx.real('sl', 50, 200)
+        t1 = ctx.real('t1', 50, 200)
+        t2 = ctx.real('t2', 50, 200)
+        ctx.constrain(And(sl < 99.7, t1 > 100.3, t2 > 100.3, Not(t1 == t2)) if long else And(sl > 100.3, t1 < 99.7, t2 < 99.7, Not(t1 == t2)))
+        T = S.make_template(side=side, entry=None, stop=[(3.0, sl)], take=[(2.0, t1), (1.0, t2)], qty=3.0, on_open_exits=True, name='T3h')
     elif kind == 'T5':
         sl = ctx.real('sl', 50, 200)
         ctx.constrain(sl < 99.7 if long else sl > 100.3)
@@ -255,9 +262,10 @@ def _jobs(tier):
         add(n=3, kind='T4', side='short', exch='futures')
         add(n=3, kind='T6', side='long', exch='futures', cancel=False)
         add(n=3, kind='T7', side='long', exch='futures')
+        add(n=2, kind='T3h', side='long', exch='futures')
     else:
         for side in ('long', 'short'):
-            for kind in ('T1', 'T2', 'T3', 'T4', 'T5', 'T7'):
+            for kind in ('T1', 'T2', 'T3', 'T3h', 'T4', 'T5', 'T7'):
                 add(n=3, kind=kind, side=side, exch='futures')
             add(n=3, kind='T6', side=side, exch='futures', cancel=False)
         add(n=3, kind='T1', side='long', exch='spot')
